@@ -354,15 +354,27 @@ def a1_traces(ctx):
         ctx.undecided('C04.A1', fi, 'what _load_traces returns on the paths that open the raw data was not recognised (%s)' % [show(v)[:60] for v in unknown][:1])
     ld = repo.lookup_method(cls, '_load_data')
     calls = [c for c in ld.calls() if q.method_name(c) == '_load_traces']
-    ctx.check(bool(calls) and calls[0].args and unparse(calls[0].args[0]) == 'self.channel_mapping', 'C04.A1', ld, calls[0] if calls else '_load_data',
-              'the channel map given to the traces is the loaded channel map', 'the traces are not given self.channel_mapping')
+    calls = [(f_, c) for f_ in repo.transparent_closure(ld) for c in f_.calls() if q.method_name(c) == '_load_traces']
+    cm_arg = q.arg(calls[0][1], 0, fi.real_params[0] if fi.real_params else 'channel_map') if calls else None
+    cm_x = calls[0][0].expand(cm_arg) if cm_arg is not None else None
+    ctx.tri(cm_x is not None and Pat().m('self.channel_mapping', cm_x),
+            bool(calls) and (cm_arg is None or (isinstance(cm_x, ast.Attribute) and isinstance(cm_x.value, ast.Name) and cm_x.value.id == 'self' and cm_x.attr != 'channel_mapping') or
+                             isinstance(cm_x, ast.Constant)),
+            'C04.A1', ld, calls[0][1] if calls else '_load_data', 'the channel map given to the traces is the loaded channel map',
+            'the traces are not given self.channel_mapping (`%s`)' % (unparse(cm_arg) if cm_arg is not None else 'no argument'), 'the channel map passed to _load_traces was not recognised')
     ge = [c for c in fi.calls() if dotted(c.func) == 'get_ephys_reader']
     kw = {k.arg: unparse(k.value) for k in ge[0].keywords} if ge else {}
     n_src = fi.expand(ge[0].keywords[[k.arg for k in ge[0].keywords].index('n_channels_dat')].value) if ge and 'n_channels_dat' in kw else None
-    okk = bool(ge) and kw.get('dtype') == 'self.dtype' and kw.get('offset') == 'self.offset' and kw.get('sample_rate') == 'self.sample_rate' and \
-        n_src is not None and unparse(n_src) == 'self.n_channels_dat' and unparse(ge[0].args[0]) == 'self.dat_path'
-    ctx.check(okk, 'C04.A1', fi, ge[0] if ge else '_load_traces', 'the raw reader gets dat_path, dtype, offset, n_channels_dat and sample_rate of the model',
-              'the raw reader is built with %s' % kw)
+    want_kw = {'dtype': 'self.dtype', 'offset': 'self.offset', 'sample_rate': 'self.sample_rate', 'n_channels_dat': 'self.n_channels_dat'}
+    got_kw = {k.arg: fi.expand(k.value) for k in ge[0].keywords if k.arg} if ge else {}
+    first = fi.expand(ge[0].args[0]) if ge and ge[0].args else None
+    okk = bool(ge) and all(k_ in got_kw and Pat().m(v_, got_kw[k_]) for k_, v_ in want_kw.items()) and first is not None and Pat().m('self.dat_path', first)
+    # a definite difference: one of these arguments is ANOTHER attribute of the model or a constant
+    wrong = [k_ for k_, v_ in want_kw.items() if k_ in got_kw and not Pat().m(v_, got_kw[k_]) and
+             (isinstance(got_kw[k_], ast.Constant) or (isinstance(got_kw[k_], ast.Attribute) and isinstance(got_kw[k_].value, ast.Name) and got_kw[k_].value.id == 'self'))]
+    missing = [k_ for k_ in want_kw if ge and k_ not in got_kw and not any(k.arg is None for k in ge[0].keywords) and len(ge[0].args) <= 1]
+    ctx.tri(okk, bool(wrong) or bool(missing), 'C04.A1', fi, ge[0] if ge else '_load_traces', 'the raw reader gets dat_path, dtype, offset, n_channels_dat and sample_rate of the model',
+            'the raw reader is built with %s' % {k_: unparse(v_) for k_, v_ in got_kw.items()}, 'arguments of get_ephys_reader not recognised')
 
 
 def d1_defaults(ctx):
@@ -419,8 +431,14 @@ def d1_defaults(ctx):
             # without a masked store only what nan_to_num itself zeroes counts
             scrubbed = {k for k in scrubbed if k == 'nan' or nan_to_num_inf is None}
         ok = {'nan', 'inf'} <= scrubbed and zero
-    ctx.check(bool(ifs), 'C04.D1', ra, ifs[0].test if ifs else 'read_array', 'the scrub is applied iff the array is fully loaded (mmap_mode is None)',
-              'NaN/inf scrubbing is not conditioned on `mmap_mode is None`')
+    scrub_calls = [c for c in ra.calls() if (dotted(c.func) or '') in ('np.nan_to_num', 'np.isnan', 'np.isinf', 'np.isfinite') or
+                   (dotted(c.func) == 'getattr' and len(c.args) == 2 and dotted(c.args[0]) == 'np')] + \
+                  [a_ for a_ in ra.nodes(ast.Assign) if isinstance(a_.targets[0], ast.Subscript) and const_value(a_.value) == 0]
+    uncond = [c for c in scrub_calls if not any(isinstance(n, ast.Name) and n.id == mm for i_, br_ in q.enclosing_ifs(ra, c) for n in ast.walk(i_.test)) and
+              not any(isinstance(st_, ast.If) and any(isinstance(n, ast.Name) and n.id == mm for n in ast.walk(st_.test)) and st_.body and isinstance(st_.body[-1], ast.Return)
+                      for st_ in ra.body())]
+    ctx.tri(bool(ifs), not ifs and bool(uncond), 'C04.D1', ra, ifs[0].test if ifs else (uncond[0] if uncond else 'read_array'), 'the scrub is applied iff the array is fully loaded (mmap_mode is None)',
+            'NaN/inf scrubbing is not conditioned on `mmap_mode is None`', 'the condition under which NaN / inf are scrubbed was not recognised')
     scrubbed &= {'nan', 'inf'}
     if not ok and not scrubbed and nan_to_num_inf is None:
         ctx.undecided('C04.D1', ra, 'how NaN / inf entries of fully loaded arrays are replaced was not recognised')
@@ -429,8 +447,9 @@ def d1_defaults(ctx):
               ('np.nan_to_num without posinf=0, neginf=0 replaces +-inf by the largest / smallest finite value of the dtype, not by zero' if nan_to_num_inf is not None and 'nan' in scrubbed
                else 'fully loaded arrays are scrubbed of %s only (NaN and inf must both become 0)' % sorted(scrubbed)))
     ld = [c for c in ra.calls() if dotted(c.func) == 'np.load']
-    ctx.check(bool(ld) and q.kwarg(ld[0], 'mmap_mode') is not None and unparse(q.kwarg(ld[0], 'mmap_mode')) == mm, 'C04.D1', ra, ld[0] if ld else 'read_array',
-              'np.load is given the requested map mode', 'np.load ignores the requested mmap_mode')
+    mm_arg = q.arg(ld[0], 1, 'mmap_mode') if ld else None
+    ctx.tri(mm_arg is not None and Pat().m(mm, ra.expand(mm_arg)), bool(ld) and (mm_arg is None or isinstance(ra.expand(mm_arg), ast.Constant)), 'C04.D1', ra, ld[0] if ld else 'read_array',
+            'np.load is given the requested map mode', 'np.load ignores the requested mmap_mode', 'the load call of read_array was not recognised')
     cls = repo.cls(M, 'TemplateModel')
     rd = repo.lookup_method(cls, '_read_array')
     rx = [x for _, x in returned(rd)]
@@ -443,8 +462,13 @@ def d1_defaults(ctx):
     else:
         ctx.undecided('C04.D1', rd, 'return of _read_array not in a recognised form')
     raises = any(isinstance(n, ast.Raise) and 'IOError' in unparse(n) for n in ast.walk(rd.node))
-    ctx.check(raises, 'C04.D1', rd, '_read_array', 'a missing optional file surfaces as IOError (caught by the loaders that have a default)',
-              '_read_array does not raise IOError for a missing file: the default branches of the loaders are dead')
+    clo_rd = repo.transparent_closure(rd)
+    raises = raises or any(isinstance(n, ast.Raise) and any(x in unparse(n) for x in ('IOError', 'OSError', 'FileNotFoundError')) for f_ in clo_rd for n in ast.walk(f_.node))
+    other_raise = [n for f_ in clo_rd for n in ast.walk(f_.node) if isinstance(n, ast.Raise) and n.exc is not None and not any(x in unparse(n) for x in ('IOError', 'OSError', 'FileNotFoundError'))]
+    exists_test = any(isinstance(n, ast.Call) and q.method_name(n) in ('exists', 'is_file') for f_ in clo_rd for n in ast.walk(f_.node))
+    ctx.tri(raises, not raises and (bool(other_raise) or exists_test), 'C04.D1', rd, other_raise[0] if other_raise and not raises else '_read_array',
+            'a missing optional file surfaces as IOError (caught by the loaders that have a default)',
+            '_read_array does not raise IOError for a missing file: the default branches of the loaders are dead', 'how _read_array reports a missing file was not recognised')
 
     def default_of(lname):
         fi = repo.lookup_method(cls, lname)
@@ -511,8 +535,12 @@ def d1_defaults(ctx):
     # inverse: computed from wm with a matrix inverse
     cw = repo.lookup_method(cls, '_compute_wmi')
     inv = [c for c in cw.calls() if (dotted(c.func) or '').endswith('linalg.inv') or (dotted(c.func) or '').endswith('linalg.pinv')]
-    ctx.check(bool(inv) and unparse(inv[0].args[0]) == cw.params[1], 'C04.D1', cw, inv[0] if inv else '_compute_wmi',
-              'the inverse whitening matrix is the matrix inverse of the whitening matrix', 'the inverse whitening matrix is not np.linalg.inv(wm)')
+    rets_cw = [x for _, x in returned(cw)]
+    plain = [x for x in rets_cw if Pat().any([cw.params[1], '%s.T' % cw.params[1], '%s.copy()' % cw.params[1], 'np.transpose(%s)' % cw.params[1]], x)]
+    ctx.tri(bool(inv) and bool(inv[0].args) and Pat().m(cw.params[1], cw.expand(inv[0].args[0])),
+            (bool(inv) and bool(inv[0].args) and isinstance(cw.expand(inv[0].args[0]), (ast.Name, ast.Attribute)) and not Pat().m(cw.params[1], cw.expand(inv[0].args[0]))) or (not inv and bool(plain)),
+            'C04.D1', cw, inv[0] if inv else (plain[0] if plain else '_compute_wmi'),
+            'the inverse whitening matrix is the matrix inverse of the whitening matrix', 'the inverse whitening matrix is not np.linalg.inv(wm)', 'computation of the inverse whitening matrix not recognised')
 
 
 def p1_monotonic(ctx, f, effs):
